@@ -349,7 +349,8 @@ def run_displacement(ctx, am, cell, box, pbc, pos, i):
     rec, rng = ctx.rec, ctx.rng
     v0, o0 = box.vects, box.origin
     n = len(pos)
-    v1 = GEN.strained(rng, v0)
+    # orthogonal cells get a pure stretch every other round so that the 'final' reference cell is orthogonal too
+    v1 = GEN.strained(rng, v0, diagonal=bool(cell['ortho'] and (i // GEN.NCOMBO) % 2 == 0))
     o1 = o0 + rng.uniform(-0.05, 0.05, 3) * cell['L']
     pbc1 = GEN.PBCS[(GEN.PBCS.index(tuple(pbc)) + 1 + (i // GEN.NCOMBO) % 7) % 8]      # always differs from pbc
     s0 = s1 = None
